@@ -80,6 +80,25 @@ CHANGE = {
  'C17d': ("martian/syntax/collection_types.go ArrayType.IsValidJson", "recursive helper passes s.Dim-1 instead of dim-1: for 3+ dimensions the element type is never reached, valid values are rejected and arrays of arrays of nulls of any depth accepted"),
  'C18d': ("martian/core/shell_quote.go shellSafeQuote", "pre-scan skips the byte after every multi-byte character: 'é$x' takes the fast path and is written unescaped inside double quotes"),
  'C19d': ("martian/syntax/refactoring/remove_unused_outputs.go removeCallRef", "IndexByte became LastIndexByte: an output referenced only through a projection two members deep (MID.rec.inner.x) is taken for unused and removed, the edited files no longer compile"),
+ 'C01e': ("martian/core/resolve.go resolvePath", "the null guard of the run-time member projection also fires for two-byte values: an empty [] or {} on a projection path (STAGE.items.name) becomes null"),
+ 'C02e': ("martian/core/fork.go Fork.expandForkFromRef", "a 'source not complete yet' guard that is a no-op in a normal run: on re-attach RestoreForks runs before the metadata is loaded, the run-time forks are not restored, the mapped call counts as complete with its first fork and its consumers start while the other forks are still running"),
+ 'C03e': ("martian/core/jobdef.go StageDefs.UnmarshalJSON", "an explicit 'chunks: []' is treated like an absent key: a split that defines zero chunks gets the default single chunk and an undefined main job runs"),
+ 'C04e': ("martian/core/storage.go getLogicalFileNames", "early return skips EvalSymlinks unless the path itself is a symlink: with a symlinked parent directory in the pipestance path and outputs reported by physical path the output no longer matches its argument and VDR deletes it at once"),
+ 'C05e': ("martian/syntax/equivalence.go FloatExp.equal", "tolerance computed without math.Abs: two negative non-integral floats never compare equal, a restart with the same invocation is refused as 'different invocation'"),
+ 'C06e': ("martian/core/metadata.go Metadata._getStateNoLock", "_complete is tested before _errors / _assert: a directly executed (src exec) stage that records completion and then exits non-zero is taken for complete, mrp reports success and starts the dependents"),
+ 'C07e': ("martian/core/resolve.go resolvePath", "element type of an array taken as t.Elem instead of one dimension less: member projections through arrays of two or more dimensions of structs (grid.x for CELL[][]) fail at run time"),
+ 'C08e': ("martian/syntax/parser.go Parser.getIncludes", "an included file is registered as processed after it has been parsed instead of before: an include cycle that does not pass through the top-level file recurses until the process dies"),
+ 'C09e': ("martian/syntax/format_callable.go CallStm.format", "prefix-form modifiers (call volatile X) are only converted to bindings when the call has no using(...) block: mixed spellings lose the prefix-form modifiers on formatting"),
+ 'C10e': ("martian/core/fork.go getUnknownKeys / expandForkFromObj", "the key sort moved from the caller into the helper, where the MarshalerMap branch was missed: forks of a map call whose source is a member projection through a run-time map of structs come in Go map iteration order"),
+ 'C11e': ("martian/core/node.go Node.parseRunFilename", "chunk index parsed with base auto-detection: zero-padded chnk08/chnk09 fail to parse (notification dropped), chnk10/chnk11 are read as octal and credited to chunks 8/9; stages with 10+ chunks hang"),
+ 'C12e': ("martian/core/stage.go Fork.reattachJobs", "operands of || swapped around a call with a side effect: once one job of a fork is found queued locally the remaining already-submitted jobs are not re-counted against --maxjobs after a re-attach"),
+ 'C13e': ("martian/core/post_process.go moveOutDir", "object keys of the rewritten _outs quoted with strconv.Quote instead of JSON: a typed-map key with a control character gives invalid JSON and the top-level _outs is not rewritten at all"),
+ 'C14e': ("martian/core/storage.go Fork.vdrKillSome", "children collapsed into a removed directory stay in the fork's file table: a later clean-up pass counts their size and number again in the kill reports"),
+ 'C15e': ("martian/core/runtime.go Runtime.reattachToPipestance", "the error return of the invocation comparison is guarded by !readOnly together with the unlock: mrp --inspect attaches to a pipestance whose included sources changed semantically"),
+ 'C16e': ("martian/core/runtime.go BuildCallAst", "DecId set to the call's name instead of the callable's: the per-fork _invocation of an aliased call (call SCALE as RESCALE) reads 'call RESCALE(...)' and does not compile"),
+ 'C17e': ("martian/syntax/builtin_types.go BuiltinType.IsAssignableFrom", "lost parentheses in the string -> file/path coercion: a path destination accepts every builtin source, component-wise through arrays, maps and structs"),
+ 'C18e': ("martian/core/jobmanager_remote.go RemoteJobManager.sendJob", "CR LF pairs in the finished job script are normalised to LF: a value containing \\r\\n reaches the job one byte short"),
+ 'C19e': ("martian/syntax/refactoring/rename_input_param.go renameSelfInputInCalls", "the binding loop stops at the wildcard entry before looking at it: renaming a pipeline input leaves '* = self.<input>' with the old name and the files no longer compile"),
 }
 matrix = collections.defaultdict(list)
 mp = os.path.join(ROOT, 'matrix.jsonl')
